@@ -11,7 +11,12 @@ namespace BitSerializer::Detail
 	class CBinaryStreamReader
 	{
 	public:
+#ifdef BITSERIALIZER_VERIF_CHUNK_SIZE
+		// Verification hook: lets the correspondence harness reach every buffer alignment with short inputs
+		static constexpr size_t chunk_size = BITSERIALIZER_VERIF_CHUNK_SIZE;
+#else
 		static constexpr size_t chunk_size = 256;
+#endif
 
 		explicit CBinaryStreamReader(std::istream& inputStream);
 		CBinaryStreamReader(const CBinaryStreamReader&) = delete;
